@@ -153,6 +153,14 @@ impl Recovery {
         }
     }
 
+    /// The ACK that established the connection (SYN-ACK) is the first one later ACKs can duplicate.
+    pub fn with_initial_ack(ack_nr: SeqNr, window: u32) -> Self {
+        Self {
+            last_ack: Some(LastAck { window, ack_nr }),
+            ..Self::new()
+        }
+    }
+
     #[allow(unused)]
     pub fn cwnd(&self) -> Option<usize> {
         match &self.phase {
@@ -208,8 +216,14 @@ impl Recovery {
                 let high_ack = match tx_segs.first_seq_nr() {
                     Some(s) => s - 1,
                     None => {
-                        // The queue is empty, don't count ACKs.
+                        // The queue is empty, don't count ACKs. But remember this one: once new data
+                        // is in flight, ACKs repeating it are duplicates (rfc5681: "equal to the
+                        // greatest acknowledgment received").
                         *dup_acks = 0;
+                        self.last_ack = Some(LastAck {
+                            window: header.wnd_size,
+                            ack_nr: header.ack_nr,
+                        });
                         return;
                     }
                 };
